@@ -588,6 +588,11 @@ class Ctx:
             raise InfraError(f"model driver crashed: {cm[0]}")
         return ri, rm, ci
 
+    def run_impl(self, cases, profile="debug", tag="i", timeout=3600):
+        """implementation only -> (results, crashes)"""
+        return run_sharded(self.harness(profile), cases, tag + "-impl-" + profile, self.work, timeout, None,
+                           getattr(self, "impl_stall", None))
+
     def run_model(self, cases, tag="m", timeout=3600):
         rm, cm = run_sharded(self.driver(), cases, tag, self.work, timeout)
         if cm:
